@@ -377,7 +377,9 @@ func (lw *liveWorld) runConn(n int, ccfg *tls.Config) *connObs {
 				k := 0
 				sc.WriteHook = func(int) {
 					if k++; k <= 4 {
-						time.Sleep(time.Duration(p.SlowWriteReturnMs) * time.Millisecond)
+						// (+950 ns: an instant of its own - link deliveries sit on a
+						// 1 µs grid plus a per-link residue below 900 ns)
+						time.Sleep(time.Duration(p.SlowWriteReturnMs)*time.Millisecond + 950*time.Nanosecond)
 					}
 				}
 				lw.mu.Lock()
